@@ -5,6 +5,7 @@ tasks with rendezvous overlap audits) in a live runtime, several QT_ARGCOPY_SIZE
 import json
 from .. import core
 from . import _gen
+from . import _c09_micro
 
 M32 = 1 << 32
 M64 = 1 << 64
@@ -390,6 +391,9 @@ def run(ctx):
                      "occupies data[AC..AC+8) while only AC+TL bytes are requested from the pool (absorbed by the pool's 16-byte rounding "
                      "unless AC+TL is within 8-TL of a multiple of 16).  Not exercised; Tasklocal theorem tl_slot_fits carries 8 <= TL.")
     verdict(ctx, pr, mismatches, oracle_fail)
+    # ---- extension G: micro-step id allocation (every schedule) + descriptor life cycle, see _c09_micro.py ----
+    _c09_micro.run_micro(ctx, quick)
+    # ---- end of extension G ----
 
 
 def verdict(ctx, pr, mismatches, oracle_fail):
@@ -412,6 +416,8 @@ def verdict(ctx, pr, mismatches, oracle_fail):
 def replay(ctx, path):
     j = json.load(open(path))
     r = j["replay"]
+    if isinstance(r, dict) and r.get("micro_g"):          # a replay written by extension G
+        return _c09_micro.replay(ctx, r)
     fi = r.get("failing_input") or (r.get("first_mismatch") or [None, None])[1] or r
     if not fi or "case" not in fi:
         print(json.dumps(j, indent=1)[:4000])
